@@ -44,11 +44,11 @@ CORE_INVARIANTS = ["InvWellFormed", "InvIndexExact", "InvSiblingUnique", "InvBou
 
 
 def mc_core(consts, *, defdid="hash", workers=16, tag="mc", simulate=None, depth=None, seed=None, timeout=3600,
-            invariants=CORE_INVARIANTS, coverage=False):
+            invariants=CORE_INVARIANTS, coverage=False, emit_transitions=True):
     cfg = WORK / "cfg" / f"{tag}-{os.getpid()}-{time.time_ns()}.cfg"
     cfg.parent.mkdir(parents=True, exist_ok=True)
     write_cfg(cfg, constants=consts, subst={"DefDid": DEFDID_OP[defdid]}, view="View", invariants=invariants,
-              action_constraints=["Emit"])
+              action_constraints=["Emit"] if emit_transitions else [])
     try:
         return run_tlc("MC_Core.tla", cfg, workers=workers, tag=tag, simulate=simulate, depth=depth, seed=seed,
                        timeout=timeout, coverage=coverage)
@@ -104,7 +104,7 @@ def execute_pairs(pairs, flname, *, mk=1, maxd=4, procs=16, chunk=400, use_src=F
 
 
 # ------------------------------------------------------------------------------------------------
-_MM = re.compile(r'<<\s*"MISMATCH",\s*(-?\d+),\s*"([^"]*)",\s*"([^"]*)",\s*"([^"]*)"\s*>>')
+_MM = re.compile(r'<<\s*"MISMATCH",\s*(-?\d+),\s*"([^"]*)",\s*"((?:[^"\\]|\\.)*)",\s*"((?:[^"\\]|\\.)*)"\s*>>')
 _CK = re.compile(r'<<\s*"CHECKED",\s*(\d+)\s*>>')
 
 
@@ -148,11 +148,36 @@ def validate_records(records, *, defdid="hash", mk=1, module="TraceCore.tla", sh
                 raise TLCError(f"trace validation did not complete for {p}: {r.errors[:3]} {r.tail[-15:]}")
             checked += int(ck.group(1))
             flat = " ".join(txt.split())
+            found = 0
             for m in _MM.finditer(flat):
+                found += 1
                 mism.append({"id": int(m.group(1)), "property": m.group(2), "clause": m.group(3), "why": m.group(4)})
+            if found != flat.count('"MISMATCH"'):
+                raise TLCError(f"could not parse every MISMATCH line of {p} ({found} of {flat.count('MISMATCH')})")
             r.cleanup()
     finally:
         cfg.unlink(missing_ok=True)
         for p in files:
             p.unlink(missing_ok=True)
     return mism, checked, time.time() - t0
+
+
+def mc_shapes(*, max_nodes, k=0, emit=True, workers=1, tag="shapes", timeout=3600,
+              invariants=("InvIter", "InvVisit", "InvRel", "InvTyped", "InvPrefix")):
+    cfg = WORK / "cfg" / f"{tag}-{os.getpid()}-{time.time_ns()}.cfg"
+    cfg.parent.mkdir(parents=True, exist_ok=True)
+    write_cfg(cfg, constants={"MaxNodes": max_nodes, "K": k, "EmitOn": emit, "MetaKeys": 1},
+              subst={"DefDid": "DefDidHash"}, invariants=list(invariants) + ["EmitState"])
+    try:
+        return run_tlc("MC_Shapes.tla", cfg, workers=workers, tag=tag, timeout=timeout)
+    finally:
+        cfg.unlink(missing_ok=True)
+
+
+def core_states(consts, *, defdid="hash", tag="states", timeout=3600):
+    """every distinct (canonical) labelled state of MC_Core within the bound"""
+    c = dict(consts)
+    c["EmitOn"] = False
+    res = mc_core(c, defdid=defdid, workers=1, tag=tag, timeout=timeout, emit_transitions=False,
+                  invariants=["InvWellFormed", "InvIndexExact", "InvSiblingUnique", "EmitStateInv"])
+    return res
